@@ -105,13 +105,17 @@ def sweepPrefix (f : Option Op → List Bool → Nat → RS → SlotRes) (cutoff
 
 /-! ### idealised probabilities (exact rationals) -/
 
+/-- the probability with which `genClipped num den` answers yes (also for `den = 0 < num`, where the
+code answers yes without a draw) -/
+def clipProb (num den : Rat) : Rat := if num > den then 1 else num / den
+
 /-- acceptance of an insertion of a bond with diagonal weight `w` when `n` operators are present -/
 def accInsM (β : Rat) (Nb : Nat) (w : Rat) (L n : Nat) : Rat :=
-  clip1 (β * (Nb : Rat) * w / ((L - n : Nat) : Rat))
+  clipProb (β * (Nb : Rat) * w) ((L - n : Nat) : Rat)
 
 /-- acceptance of the removal of such an operator when `n` operators (this one included) are present -/
 def accRemM (β : Rat) (Nb : Nat) (w : Rat) (L n : Nat) : Rat :=
-  clip1 ((((L - n : Nat) : Rat) + 1) / (β * (Nb : Rat) * w))
+  clipProb (((L - n : Nat) : Rat) + 1) (β * (Nb : Rat) * w)
 
 /-- probability that an empty slot is filled with bond `b` (weight `w` at the current state):
 uniform bond choice times acceptance -/
@@ -136,12 +140,5 @@ def configWeight (H : Ham) (β : Rat) (c : Config) : Rat :=
   let L := c.slots.length
   let n := countOps c.slots
   β ^ n * ((fact (L - n) : Nat) : Rat) / ((fact L : Nat) : Rat) * opsWeight H c.slots
-
-/-- rolling state in front of slot `k` (off-diagonal and diagonal ops write their outputs) -/
-def stateAt (st : List Bool) : Slots → Nat → List Bool
-  | _, 0 => st
-  | [], _ => st
-  | none :: t, k + 1 => stateAt st t k
-  | some o :: t, k + 1 => stateAt (writeVars st o.vars o.outs) t k
 
 end Qmc
